@@ -408,7 +408,7 @@ def get_ast_term(t):
                 return BinaryOp(arg1_ast, op_ast, arg2_ast, t.get_type())
 
             # Unary case
-            elif op_data and op_data.arity == operator.UNARY:
+            elif op_data and op_data.arity == operator.UNARY and len(t.args) == 1:
                 op_str = op_data.unicode_op if settings.unicode else op_data.ascii_op
                 op_name = theory.thy.get_overload_const_name(op_data.fun_name, t.head.get_type())
                 op_ast = Operator(op_str, t.head.get_type(), op_name)
@@ -421,7 +421,7 @@ def get_ast_term(t):
                 return UnaryOp(op_ast, arg_ast, t.get_type())
 
             # Next, the case of binders
-            elif binder_data and t.arg.is_abs():
+            elif binder_data and len(t.args) == 1 and t.arg.is_abs():
                 binder_str = binder_data.unicode_op if settings.unicode else binder_data.ascii_op
                 op_ast = Binder(binder_str)
 
